@@ -294,26 +294,34 @@ def sample(lst, k, seed):
 
 # ---------------------------------------------------------------- verdict and evidence
 
-def finish(run, level, rule_owner, behs, trace_lines, viols, coverage, assumptions, replay_family, replay_extra=None, confirm=None, fpfun=None):
+def finish(run, level, rule_owner, behs, trace_lines, viols, coverage, assumptions, replay_family, replay_extra=None, confirm=None, fpfun=None,
+           confirm_batch=None, batch_file=None):
     """Common tail: map violations to cases, fingerprints, known findings, replay files, evidence, exit code.
-    viols: list of (rule, line_no(1-based), ...) from the trace spec.  rule_owner: rule -> property id (None = any)."""
+    viols: list of (rule, line_no(1-based), ...) from the trace spec.  rule_owner: rule -> property id (None = any).
+    confirm(b, rule[, line]): re-executes one case alone.  confirm_batch() -> (viols, trace_lines) re-executes the whole
+    batch: a violation that needs what OTHER cases leave behind in the process (state shared across connections or
+    transports) does not show when its case runs alone, but it must show again with the same fingerprint in the batch."""
     prop = run.prop
     known = load_known(prop)
     byid = {b['id']: b for b in behs}
-    mine = []
-    other = 0
-    for v in viols:
-        rule, ln = v[0], v[1]
-        if rule_owner.get(rule, prop) != prop:
-            other += 1
-            continue
-        line = trace_lines[ln - 1]
-        case = line.get('case')
-        b = byid.get(case)
-        if b is None:
-            raise ToolTrouble('violation at trace line %d refers to unknown case %r' % (ln, case))
-        fp = (fpfun or step_fingerprint)(rule, b, line)
-        mine.append((fp, rule, b, line))
+
+    def collect(vs, tlines):
+        out, other = [], 0
+        for v in vs:
+            rule, ln = v[0], v[1]
+            if rule_owner.get(rule, prop) != prop:
+                other += 1
+                continue
+            line = tlines[ln - 1]
+            case = line.get('case')
+            b = byid.get(case)
+            if b is None:
+                raise ToolTrouble('violation at trace line %d refers to unknown case %r' % (ln, case))
+            fp = (fpfun or step_fingerprint)(rule, b, line)
+            out.append((fp, rule, b, line))
+        return out, other
+
+    mine, other = collect(viols, trace_lines)
     # one report per fingerprint: the shortest failing case stands for it
     seen = {}
     for fp, rule, b, line in mine:
@@ -327,6 +335,7 @@ def finish(run, level, rule_owner, behs, trace_lines, viols, coverage, assumptio
         else:
             new.append((fp, rule, b, line))
     confirmed = []
+    in_batch = False
     if new and confirm is not None:
         for fp, rule, b, line in new[:12]:
             import inspect
@@ -334,21 +343,38 @@ def finish(run, level, rule_owner, behs, trace_lines, viols, coverage, assumptio
             if okc:
                 confirmed.append((fp, rule, b, line))
             else:
-                run.notes.append('unreproduced: %s' % fp)
+                run.notes.append('unreproduced when run alone: %s' % fp)
         if not confirmed and new:
-            raise ToolTrouble('violations did not reproduce on re-execution: %s' % [n[0] for n in new[:5]])
-        new = confirmed + new[12:]
+            again = set()
+            if confirm_batch is not None:
+                v2, l2 = confirm_batch()
+                again = set(x[0] for x in collect(v2, l2)[0])
+            both = [n for n in new if n[0] in again]
+            if not both:
+                raise ToolTrouble('violations did not reproduce on re-execution: %s' % [n[0] for n in new[:5]])
+            run.notes.append('reproduced only when the whole batch is executed again (depends on what other cases leave behind in the process): %d fingerprints' % len(both))
+            new, in_batch = both, True
+        else:
+            new = confirmed + new[12:]
     for fp, what in knownhit:
         log('KNOWN-FINDING: property=%s %s (%s)' % (prop, what, fp))
     os.makedirs(os.path.join(ROOT, 'replays'), exist_ok=True)
+    stored_batch = None
+    if in_batch and batch_file and os.path.exists(batch_file) and os.path.getsize(batch_file) < 40 * 1024 * 1024:
+        stored_batch = os.path.join(ROOT, 'replays', '%s-batch-%s-%d.ndjson' % (prop, run.tier, run.seed))
+        shutil.copyfile(batch_file, stored_batch)
     for fp, rule, b, line in new:
         h = hashlib.sha1(fp.encode()).hexdigest()[:12]
         path = os.path.join(ROOT, 'replays', '%s-%s.json' % (prop, h))
+        rec = dict(property=prop, family=replay_family, rule=rule, fingerprint=fp, seed=run.seed, tier=run.tier,
+                   behaviour=b, observed=line, extra=replay_extra)
+        if in_batch:
+            rec['context'] = 'batch'
+            rec['batch_file'] = stored_batch
         with open(path, 'w') as f:
-            json.dump(dict(property=prop, family=replay_family, rule=rule, fingerprint=fp, seed=run.seed, tier=run.tier,
-                           behaviour=b, observed=line, extra=replay_extra), f, indent=1)
+            json.dump(rec, f, indent=1)
         log('VIOLATION property=%s replay=%s' % (prop, path))
-        log('  rule=%s fingerprint=%s' % (rule, fp[:300]))
+        log('  rule=%s fingerprint=%s%s' % (rule, fp[:300], ' (in the batch only)' if in_batch else ''))
     coverage = dict(coverage)
     coverage.setdefault('violations_other_properties_ignored', other)
     coverage['known_findings_hit'] = len(knownhit)
